@@ -593,25 +593,29 @@ cdef class CPUDomainManager(DomainManagerBase):
                         zt_high.append(2*(zmax - zi))
 
 
-            # now treat each case separately and append to the main array
+            # now treat each case separately and append to the main array.
+            # The copies must stay in the order of the indices (and of the
+            # translations), so nothing is aligned until the end: with
+            # periodic ghosts among the particles the tags are mixed and
+            # aligning would re-order the copies under the stored indices.
             added = ParticleArray(x=None, y=None, z=None)
             x = added.get_carray('x')
             y = added.get_carray('y')
             z = added.get_carray('z')
             if mirror_in_x:
                 # x_low
-                copy = pa.extract_particles( x_low )
+                copy = pa.extract_particles(x_low, None, align=False)
                 if copy.get_number_of_particles() > 0:
                     self._add_array_to_array(copy.get_carray('x'), xt_low)
                     self._mul_to_array(copy.get_carray('u'), -1)
-                    added.append_parray(copy)
+                    added.append_parray(copy, align=False)
 
                 # x_high
-                copy = pa.extract_particles( x_high )
+                copy = pa.extract_particles(x_high, None, align=False)
                 if copy.get_number_of_particles() > 0:
                     self._add_array_to_array(copy.get_carray('x'), xt_high)
                     self._mul_to_array(copy.get_carray('u'), -1)
-                    added.append_parray(copy)
+                    added.append_parray(copy, align=False)
 
             if mirror_in_y:
                 # Now do the corners from the previous.
@@ -627,32 +631,32 @@ cdef class CPUDomainManager(DomainManagerBase):
                         high.append(i)
                         high_translate.append(2*(ymax - yi))
 
-                copy = added.extract_particles(low)
+                copy = added.extract_particles(low, None, align=False)
                 if copy.get_number_of_particles() > 0:
                     self._add_array_to_array(copy.get_carray('y'), low_translate)
                     self._mul_to_array(copy.get_carray('v'), -1)
-                    added.append_parray(copy)
+                    added.append_parray(copy, align=False)
 
-                copy = added.extract_particles(high)
+                copy = added.extract_particles(high, None, align=False)
                 if copy.get_number_of_particles() > 0:
                     self._add_array_to_array(copy.get_carray('y'), high_translate)
                     self._mul_to_array(copy.get_carray('v'), -1)
-                    added.append_parray(copy)
+                    added.append_parray(copy, align=False)
 
                 # Add the actual y_high and y_low now.
                 # y_high
-                copy = pa.extract_particles( y_high )
+                copy = pa.extract_particles(y_high, None, align=False)
                 if copy.get_number_of_particles() > 0:
                     self._add_array_to_array(copy.get_carray('y'), yt_high)
                     self._mul_to_array(copy.get_carray('v'), -1)
-                    added.append_parray(copy)
+                    added.append_parray(copy, align=False)
 
                 # y_low
-                copy = pa.extract_particles( y_low )
+                copy = pa.extract_particles(y_low, None, align=False)
                 if copy.get_number_of_particles() > 0:
                     self._add_array_to_array(copy.get_carray('y'), yt_low)
                     self._mul_to_array(copy.get_carray('v'), -1)
-                    added.append_parray(copy)
+                    added.append_parray(copy, align=False)
 
             if mirror_in_z:
                 # Now do the corners from the previous.
@@ -668,35 +672,35 @@ cdef class CPUDomainManager(DomainManagerBase):
                         high.append(i)
                         high_translate.append(2*(zmax - zi))
 
-                copy = added.extract_particles(low)
+                copy = added.extract_particles(low, None, align=False)
                 if copy.get_number_of_particles() > 0:
                     self._add_array_to_array(copy.get_carray('z'), low_translate)
                     self._mul_to_array(copy.get_carray('w'), -1)
-                    added.append_parray(copy)
+                    added.append_parray(copy, align=False)
 
-                copy = added.extract_particles(high)
+                copy = added.extract_particles(high, None, align=False)
                 if copy.get_number_of_particles() > 0:
                     self._add_array_to_array(copy.get_carray('z'), high_translate)
                     self._mul_to_array(copy.get_carray('w'), -1)
-                    added.append_parray(copy)
+                    added.append_parray(copy, align=False)
 
                 # Add the actual z_high and z_low now.
                 # z_high
-                copy = pa.extract_particles( z_high )
+                copy = pa.extract_particles(z_high, None, align=False)
                 if copy.get_number_of_particles() > 0:
                     self._add_array_to_array(copy.get_carray('z'), zt_high)
                     self._mul_to_array(copy.get_carray('w'), -1)
-                    added.append_parray(copy)
+                    added.append_parray(copy, align=False)
 
                 # z_low
-                copy = pa.extract_particles( z_low )
+                copy = pa.extract_particles(z_low, None, align=False)
                 if copy.get_number_of_particles() > 0:
                     self._add_array_to_array(copy.get_carray('z'), zt_low)
                     self._mul_to_array(copy.get_carray('w'), -1)
-                    added.append_parray(copy)
+                    added.append_parray(copy, align=False)
 
 
-            added.tag[:] = Ghost
+            added.get('tag', only_real_particles=False)[:] = Ghost
             pa.append_parray(added)
 
     cdef _box_wrap_periodic(self):
